@@ -4,6 +4,7 @@ nesting, union with swapped normals, Lagrange identity, `Jᵀ·jit = I`, unit ri
 Property theorems only.
 -/
 import BemppVerif.Model.Geom
+import BemppVerif.Lemmas.Vec3
 import Mathlib.Tactic.Ring
 import Mathlib.Tactic.FieldSimp
 import Mathlib.Tactic.Linarith
@@ -11,7 +12,7 @@ import Mathlib.Tactic.Positivity
 import Mathlib.Algebra.Order.Field.Basic
 
 namespace BemppVerif.C11
-open BemppVerif.Model.Topo BemppVerif.Model.Geom BemppVerif.Gen
+open BemppVerif.Model.Topo BemppVerif.Model.Geom BemppVerif.Gen BemppVerif.Lemmas.Vec3
 
 section RefinementIdentities
 variable {K : Type} [Field K] [CharZero K]
@@ -130,7 +131,7 @@ direction, hence of normals, volumes and integration elements). -/
 theorem volume_translation_invariant (v0 v1 v2 w : V3 K) :
     normalDir (vadd v0 w) (vadd v1 w) (vadd v2 w) = normalDir v0 v1 v2 := by
   simp only [normalDir, jacA, jacB, cross, vsub, vadd]
-  ext <;> simp <;> ring
+  ext <;> simp
 
 /-- offset of the circumcentre from `v0` in terms of `a = v1 − v0`, `b = v2 − v0`, `n = a × b` (specification) -/
 def circumOffset (a b : V3 K) : V3 K :=
@@ -149,16 +150,39 @@ theorem diameter_is_circumdiameter [CharZero K] (v0 v1 v2 : V3 K)
   simp only [diameterSq, normalDir] at h ⊢
   generalize jacA v0 v1 v2 = a at h ⊢
   generalize jacB v0 v1 v2 = b at h ⊢
-  obtain ⟨a1, a2, a3⟩ := a
-  obtain ⟨b1, b2, b3⟩ := b
   simp only [circumOffset]
-  generalize hN : dot (cross (a1, a2, a3) (b1, b2, b3)) (cross (a1, a2, a3) (b1, b2, b3)) = N at h ⊢
-  simp only [dot, cross, vsub, vadd, sdiv, smul] at hN ⊢
+  -- the scalar products of the building blocks, with n = a × b and N = n·n
+  have hbn : dot b (cross a b) = 0 := dot_cross_right a b
+  have han : dot a (cross a b) = 0 := dot_cross_left a b
+  have e1 : dot (cross b (cross a b)) (cross b (cross a b)) = dot b b * dot (cross a b) (cross a b) := by
+    rw [dot_cross_cross, hbn]; ring
+  have e2 : dot (cross (cross a b) a) (cross (cross a b) a) = dot (cross a b) (cross a b) * dot a a := by
+    rw [dot_cross_cross, dot_comm (cross a b) a, han]; ring
+  have e3 : dot (cross b (cross a b)) (cross (cross a b) a) = -(dot a b * dot (cross a b) (cross a b)) := by
+    rw [dot_cross_cross, hbn, dot_comm b a]; ring
+  have t1 : dot (cross b (cross a b)) a = dot (cross a b) (cross a b) := by
+    rw [triple_rot]
+  have t2 : dot (cross (cross a b) a) a = 0 := by rw [dot_comm]; exact dot_cross_right _ _
+  have t3 : dot (cross b (cross a b)) b = 0 := by rw [dot_comm]; exact dot_cross_left _ _
+  have t4 : dot (cross (cross a b) a) b = dot (cross a b) (cross a b) := by rw [triple_cyclic]
+  have t5 : dot (cross b (cross a b)) (cross a b) = 0 := by rw [dot_comm]; exact dot_cross_right _ _
+  have t6 : dot (cross (cross a b) a) (cross a b) = 0 := by rw [dot_comm]; exact dot_cross_left _ _
+  have lag : dot (cross a b) (cross a b) = dot a a * dot b b - dot a b * dot a b := by
+    rw [dot_cross_cross, dot_comm b a]
+  have hcc : dot (vsub a b) (vsub a b) = dot a a - 2 * dot a b + dot b b := dot_vsub_self a b
+  have hwa : dot (sdiv (vadd (smul (dot a a) (cross b (cross a b))) (smul (dot b b) (cross (cross a b) a)))
+      (2 * dot (cross a b) (cross a b))) a = dot a a / 2 := by
+    rw [dot_comb, t1, t2]; field_simp; ring
+  have hwb : dot (sdiv (vadd (smul (dot a a) (cross b (cross a b))) (smul (dot b b) (cross (cross a b) a)))
+      (2 * dot (cross a b) (cross a b))) b = dot b b / 2 := by
+    rw [dot_comb, t3, t4]; field_simp; ring
   refine ⟨?_, ?_, ?_, ?_⟩
-  · field_simp; rw [← hN]; ring
-  · field_simp; rw [← hN]; ring
-  · field_simp; rw [← hN]; ring
-  · field_simp; ring
+  · rw [dot_comb_self, e1, e2, e3, hcc]
+    generalize dot (cross a b) (cross a b) = N at h ⊢
+    field_simp; ring
+  · rw [dot_vsub_self, hwa]; ring
+  · rw [dot_vsub_self, hwb]; ring
+  · rw [dot_comb, t5, t6]; simp
 
 end Geometry
 
